@@ -2,10 +2,10 @@ from .common import TRUSTED_BASE_COMMON
 THEOREMS = [
     "C15_constants_pinned", "C15_gated_handlers_pinned", "C15_penalty_sites_pinned",
     "C15_termination_fee_bounds", "C15_continued_fault_charged",
-    "C15_penalty_accounting_refuted_under_reporter_failure", "C15_penalty_accounting",
-    "C15_discrepancy_is_exactly_the_reward", "C15_reporter_reward_le_taken", "C15_penalties_nonneg",
+    "C15_penalty_accounting",
+    "C15_reporter_reward_le_taken", "C15_penalties_nonneg",
     "C15_debt_blocks", "C15_debt_blocks_insufficient_funds", "C15_gated_success_clears_debt",
-    "C15_history_accounting", "C15_history_exact_without_reporter_failure",
+    "C15_history_accounting",
 ]
 MODEL_TARGETS = ["Model/Penalty"]
 HARNESS = [
@@ -39,11 +39,9 @@ ASSUMPTIONS = [
     "0 <= fee_debt in the initial state (kept by every handler: check_balance_invariants)",
     "the termination-fee bounds are stated for 0 <= initial pledge and 0 <= fault fee (the fault fee is max(BR,0) by construction)",
     "which power is charged (previously faulty power, terminated sectors) is the sector bookkeeping of C02/C04; here it is an input, recomputed by the harness from the real state",
-    "F5 (reporter transfer failure keeps the reward) is reachable only through an injected failure of a METHOD_SEND",
 ]
 LEVEL_TEXT = ("Proof (Coq) of the penalty accounting for every handler invocation and every history of the modelled operations, of the termination-fee "
-              "bounds, of the debt gate for the Gen-pinned set of gated handlers, with the accounting clause REFUTED by a vm_compute witness under a "
-              "reporter-transfer failure (F5, reproduced on the real code) and the exact discrepancy proved; correspondence of model and real actor "
+              "bounds, of the debt gate for the Gen-pinned set of gated handlers, including every pattern of failing nested sends (finding F5, the kept reporter reward, was repaired in /repo); correspondence of model and real actor "
               "on seeded histories; partial: fee magnitudes relative to network economics (expected_reward_for_power) are inputs, sector bookkeeping is "
               "C02/C04's.")
 
